@@ -12,6 +12,11 @@ trap 'git -C /repo worktree remove --force "$WT" >/dev/null 2>&1' EXIT
 cd "$WT"
 FEAT=""
 grep -q 'zeroize' "$D/demo.rs" && grep -q '^zeroize' "$CRATE/Cargo.toml" && FEAT="--features zeroize"
+# a demonstration that needs a build without debug assertions says so in its README
+grep -q -- '--release' "$D/README.md" && FEAT="$FEAT --release"
+for f in block-padding alloc; do
+  grep -q -- "--features $f" "$D/README.md" && grep -q "^$f" "$CRATE/Cargo.toml" && FEAT="$FEAT --features $f"
+done
 cp "$D/demo.rs" "$CRATE/tests/demo_mutation.rs"
 cargo test -p "$(grep -m1 '^name' $CRATE/Cargo.toml | cut -d'"' -f2)" --test demo_mutation --offline $FEAT >/tmp/confirm-clean.log 2>&1; clean=$?
 rm "$CRATE/tests/demo_mutation.rs"
@@ -20,4 +25,4 @@ cargo test --workspace --offline >/tmp/confirm-suite.log 2>&1; suite=$?
 cp "$D/demo.rs" "$CRATE/tests/demo_mutation.rs"
 cargo test -p "$(grep -m1 '^name' $CRATE/Cargo.toml | cut -d'"' -f2)" --test demo_mutation --offline $FEAT >/tmp/confirm-mut.log 2>&1; mut=$?
 echo "crate=$CRATE features='$FEAT' demo_clean_exit=$clean suite_with_mutation_exit=$suite demo_with_mutation_exit=$mut"
-if [ $clean -eq 0 ] && [ $suite -eq 0 ] && [ $mut -ne 0 ]; then echo CONFIRMED; exit 0; else echo NOT-CONFIRMED; tail -5 /tmp/confirm-clean.log /tmp/confirm-suite.log /tmp/confirm-mut.log; exit 1; fi
+if [ $clean -eq 0 ] && [ $suite -eq 0 ] && [ $mut -ne 0 ]; then echo CONFIRMED; exit 0; else echo NOT-CONFIRMED; for f in /tmp/confirm-clean.log /tmp/confirm-suite.log /tmp/confirm-mut.log; do tail -n 5 "$f"; done; exit 1; fi
